@@ -421,12 +421,54 @@ def pair_clause(a, b, clause):
         return (a == b) or tokenize(a) != tokenize(b), f"a==b:{a == b} same token:{tokenize(a) == tokenize(b)}"
     if clause == "clone":
         bad = []
+        from odc.geo.geom import Geometry
+        from vlib.c19vals import type_tree
         for how, c in clones(a).items():
             ha, hc = hash_or_none(a), hash_or_none(c)
-            if not (a == c and c == a and tokenize(a) == tokenize(c) and ha == hc):
-                bad.append(f"{how}: ==:{a == c} token:{tokenize(a) == tokenize(c)} hash:{ha == hc}")
+            same = not isinstance(a, Geometry) or (type_tree(a.geom) == type_tree(c.geom) and a.crs == c.crs)
+            if not (a == c and c == a and tokenize(a) == tokenize(c) and ha == hc and same):
+                bad.append(f"{how}: ==:{a == c} token:{tokenize(a) == tokenize(c)} hash:{ha == hc}"
+                           + ("" if same else f" type/coordinates differ: {type_tree(a.geom)[:2]} -> {type_tree(c.geom)[:2]}"))
         return not bad, "; ".join(bad) or "clones ok"
     raise ValueError(clause)
+
+
+def p_geometry_copies(name, crs="EPSG:3857"):
+    """every copy route of a Geometry holding the named member of the geometry zoo (collections, rings, 3D, empties) gives an
+    equal object (both ways) of the same type tree / has_z / coordinates / CRS with the same dask token.  A route is judged
+    only where shapely itself carries the geometry faithfully through the primitive the route relies on (pickle for
+    pickle/deepcopy, shapely.geometry.shape for clone()/Geometry(g)) -- judged on shapely directly, not through odc-geo"""
+    import copy
+    import pickle
+    from dask.base import tokenize
+    from odc.geo.geom import Geometry
+    from vlib.c19vals import geometry_zoo, shapely_faithful, type_tree
+    sg = geometry_zoo()[name]
+    g = Geometry(sg, crs)
+    routes = {"pickle": ("pickle", lambda: pickle.loads(pickle.dumps(g))), "deepcopy": ("pickle", lambda: copy.deepcopy(g)),
+              "copy": (None, lambda: copy.copy(g)), "clone()": ("shape", lambda: g.clone()), "Geometry(g)": ("shape", lambda: Geometry(g))}
+    bad, skipped = [], []
+    for how, (prim, f) in routes.items():
+        if prim is not None and not shapely_faithful(sg, prim):
+            skipped.append(how)
+            continue
+        try:
+            c = f()
+        except Exception as e:  # noqa: BLE001
+            bad.append(f"{how} raised {type(e).__name__}: {str(e)[:60]}")
+            continue
+        probs = []
+        if not (c == g and g == c) or (c != g):
+            probs.append("!= original")
+        if type_tree(c.geom) != type_tree(sg):
+            probs.append(f"type/coordinates {type_tree(sg)[:2]} -> {type_tree(c.geom)[:2]}")
+        if c.crs != g.crs:
+            probs.append("crs differs")
+        if tokenize(c) != tokenize(g):
+            probs.append("different dask token")
+        if probs:
+            bad.append(f"{how}: " + ", ".join(probs))
+    return not bad, skipped, (f"Geometry({name}): " + "; ".join(bad)) if bad else f"all routes faithful (outside the shapely contract: {skipped})"
 
 
 def p_spelling_order(spellings):
@@ -454,7 +496,7 @@ def p_spelling_order(spellings):
     return True, f"{len(seen)} spellings, every construction order"
 
 
-PREDICATES = {"spelling-order": p_spelling_order, "cross-process": p_cross_process, "crs-pairs": p_crs_pairs, "array-tokens": p_array_tokens, "many-crs": p_many_crs, "transformers-all": p_transformers_all, "crs-relation": p_crs_relation, "history": p_history, "transformer": p_transformer, "tiles-token": p_tiles_token, "gcp-pickle": p_gcp_pickle,
+PREDICATES = {"geometry-copies": p_geometry_copies, "spelling-order": p_spelling_order, "cross-process": p_cross_process, "crs-pairs": p_crs_pairs, "array-tokens": p_array_tokens, "many-crs": p_many_crs, "transformers-all": p_transformers_all, "crs-relation": p_crs_relation, "history": p_history, "transformer": p_transformer, "tiles-token": p_tiles_token, "gcp-pickle": p_gcp_pickle,
               "lossless": p_lossless, "family-pair": family_pair}
 from vlib import crshist  # noqa: E402
 PREDICATES["after_history"] = crshist.after_history(PREDICATES)
@@ -763,7 +805,17 @@ def run_corpus(out):
 
 def part_x(out, tier):
     """cross-process round trips and CRS pairs after process-history perturbations"""
+    from vlib.c19vals import geometry_zoo
     found = out.__dict__.setdefault("_c19_found", set())
+    for name in geometry_zoo():
+        for crs in ("EPSG:3857", None):
+            ok, skipped, detail = p_geometry_copies(name, crs)
+            out.count("predicate:geometry-copies")
+            out.count("geometry-copies:routes outside the shapely contract", len(skipped))
+            out.case(("geometry-copies", name, crs), True)
+            if not ok and "c19:Geometry:copy" not in found:
+                found.add("c19:Geometry:copy")
+                out.violation("c19:Geometry:copy", detail, {"predicate": "geometry-copies", "args": [name, crs], "observed": detail})
     for sa, sb in (((11, 12),) if tier == "quick" else ((11, 12), (0, 1), (5, 5))):
         r = p_cross_process(sa, sb)
         out.count("predicate:cross-process")
